@@ -705,4 +705,315 @@ theorem row1W_sim (m0 : Mem) (line : Nat) (m : Mem) (row : Array Nat) (h : R1 m0
   · simp only [hgt, if_false]
     exact h
 
+/-! ### the three depths in C10's terms (`fetchRaw`) -/
+
+/-- memory `m` holds the depth-`n` row `row` at `line` — every pixel of the row, read with C10's fetch, is the
+    array's value — and differs from `m0` in nothing else: every pixel position beyond the row reads as in `m0`
+    (the other bits of the last a1 word, the odd a4 nibble, row padding), every byte before the row or after its last
+    32-bit word is the same -/
+structure HoldsRow (n : Nat) (m0 : Mem) (line : Nat) (m : Mem) (row : Array Nat) : Prop where
+  bytes : m.Bytes
+  inside : ∀ c (h : c < row.size), fetchRaw m line c n = row[c]
+  beyond : ∀ c, row.size ≤ c → fetchRaw m line c n = fetchRaw m0 line c n
+  outside : ∀ a, a < line ∨ line + 4 * ((row.size * n + 31) / 32) ≤ a → m a = m0 a
+
+theorem fetchRaw1 (m : Mem) (l c : Nat) : fetchRaw m l c 1 = fetch1 m l c := by simp [fetchRaw]
+theorem fetchRaw4 (m : Mem) (l c : Nat) : fetchRaw m l c 4 = fetch4 m l c := by simp [fetchRaw]
+theorem fetchRaw8 (m : Mem) (l c : Nat) : fetchRaw m l c 8 = m (l + c) := by simp [fetchRaw, read8]
+
+theorem holdsRow_of_R1 {m0 : Mem} {line : Nat} {m : Mem} {row : Array Nat} (h : R1 m0 line m row) : HoldsRow 1 m0 line m row :=
+  ⟨h.bytes, fun c hc => by rw [fetchRaw1]; exact h.inside c hc, fun c hc => by rw [fetchRaw1, fetchRaw1]; exact h.beyond c hc,
+   fun a ha => h.outside a (by omega)⟩
+
+theorem holdsRow_of_R4 {m0 : Mem} {line : Nat} {m : Mem} {row : Array Nat} (h : R4 m0 line m row) : HoldsRow 4 m0 line m row :=
+  ⟨h.bytes, fun c hc => by rw [fetchRaw4]; exact h.inside c hc, fun c hc => by rw [fetchRaw4, fetchRaw4]; exact h.beyond c hc,
+   fun a ha => h.outside a (by omega)⟩
+
+theorem holdsRow_of_R8 {m0 : Mem} {line : Nat} {m : Mem} {row : Array Nat} (h : R8 m0 line m row) : HoldsRow 8 m0 line m row :=
+  ⟨h.bytes, fun c hc => by rw [fetchRaw8]; exact h.inside c hc,
+   fun c hc => by rw [fetchRaw8, fetchRaw8]; exact h.outside _ (by omega), fun a ha => h.outside a (by omega)⟩
+
+/-- a1: one row of `rasterize_edges_1` on words = the per-pixel model -/
+theorem row1_words (m : Mem) (hb : m.Bytes) (line : Nat) (row : Array Nat)
+    (hold : ∀ c (h : c < row.size), fetchRaw m line c 1 = row[c]) (W : Int) (hsz : (row.size : Int) = W)
+    (hW : 0 ≤ W ∧ W ≤ 32767) (lx rx : Int) :
+    HoldsRow 1 m line (row1W m line W lx rx) (row1 row W lx rx) :=
+  holdsRow_of_R1 (row1W_sim m line m row ⟨hb, fun c hc => by rw [← fetchRaw1]; exact hold c hc, fun _ _ => rfl, fun _ _ => rfl⟩
+    W hsz hW lx rx)
+
+/-- a4: one row of `rasterize_edges_4` on nibbles = the per-pixel model -/
+theorem row4_words (m : Mem) (hb : m.Bytes) (line : Nat) (row : Array Nat)
+    (hold : ∀ c (h : c < row.size), fetchRaw m line c 4 = row[c]) (W : Int) (hsz : (row.size : Int) = W)
+    (hW : 0 ≤ W ∧ W ≤ 32767) (lx rx : Int) :
+    HoldsRow 4 m line (row4W m line W lx rx) (row4 row W lx rx) :=
+  holdsRow_of_R4 (row4W_sim m line m row ⟨hb, fun c hc => by rw [← fetchRaw4]; exact hold c hc, fun _ _ => rfl, fun _ _ => rfl⟩
+    W hsz hW lx rx)
+
+theorem row8Fill_size (row : Array Nat) (W lx rx : Int) (fs : Fill) : (row8Fill row W lx rx fs).1.size = row.size := by
+  rw [row8Fill_clamps, row8FillCore_eq]
+  split
+  · split
+    · simp only [Array.size_modify]
+    · simp only [Array.size_modify, fillMid_size]
+  · rfl
+
+/-- a8: one sub-row of `rasterize_edges_8` on bytes, span-fill bookkeeping included = the per-pixel model; the
+    pending fill is the same on both sides.  `m0` is the memory before the pixel row was started (the fill
+    state is carried across its sub-rows); `R8 m0 line m row`: `m` is a byte memory whose bytes `line … line+width-1`
+    are `row` and whose other bytes are those of `m0`. -/
+theorem row8Fill_words (m0 m : Mem) (line : Nat) (row : Array Nat) (h : R8 m0 line m row)
+    (W : Int) (hsz : (row.size : Int) = W) (hW : 0 ≤ W ∧ W ≤ 32767) (lx rx : Int) (fs : Fill) (hin : FillIn W fs) :
+    R8 m0 line (row8FillW m line W lx rx fs).1 (row8Fill row W lx rx fs).1 ∧
+    (row8FillW m line W lx rx fs).2 = (row8Fill row W lx rx fs).2 ∧
+    FillIn W (row8Fill row W lx rx fs).2 :=
+  ⟨(row8FillW_sim m0 line m row h W hsz hW lx rx fs hin).1, (row8FillW_sim m0 line m row h W hsz hW lx rx fs hin).2,
+   (row8Fill_cols row W lx rx fs hW hin).1⟩
+
+/-- a8: the flush at the end of the pixel row (`MEMSET_WRAPPED (0xff)` or `ADD_SATURATE_8`) = `flushFill` -/
+theorem flushFill_words (m0 m : Mem) (line : Nat) (row : Array Nat) (h : R8 m0 line m row)
+    (W : Int) (hsz : (row.size : Int) = W) (fs : Fill) (hin : FillIn W fs) :
+    R8 m0 line (flushFillW m line fs) (flushFill row fs) :=
+  flushFillW_sim m0 line m row h W hsz fs hin
+
+theorem r8_of_holds (m : Mem) (hb : m.Bytes) (line : Nat) (row : Array Nat)
+    (hold : ∀ c (h : c < row.size), fetchRaw m line c 8 = row[c]) : R8 m line m row :=
+  ⟨hb, fun c hc => by rw [← hold c hc, fetchRaw8], fun _ _ => rfl⟩
+
+/-! ### uniqueness: the pixels of the row and the frame determine the memory -/
+
+theorem byte_testBit_high (b j : Nat) (hb : b < 256) (hj : 8 ≤ j) : b.testBit j = false :=
+  Nat.testBit_lt_two_pow (Nat.lt_of_lt_of_le hb (by
+    have : 2 ^ 8 ≤ 2 ^ j := Nat.pow_le_pow_right (by decide) hj
+    simpa using this))
+
+/-- little endian: bit `8 i + j` of the 32-bit word at `w` is bit `j` of byte `w + i` -/
+theorem read32_bit (m : Mem) (hb : m.Bytes) (w i j : Nat) (hi : i < 4) (hj : j < 8) :
+    (read32 m w).testBit (8 * i + j) = (m (w + i)).testBit j := by
+  unfold read32
+  have h0 := hb w; have h1 := hb (w + 1); have h2 := hb (w + 2); have h3 := hb (w + 3)
+  simp only [Nat.testBit_or, Nat.testBit_shiftLeft]
+  have hi' : i = 0 ∨ i = 1 ∨ i = 2 ∨ i = 3 := by omega
+  rcases hi' with rfl | rfl | rfl | rfl
+  · have a1 : ¬ (8 * 0 + j ≥ 8) := by omega
+    have a2 : ¬ (8 * 0 + j ≥ 16) := by omega
+    have b1 : ¬ (8 ≤ j) := by omega
+    have b2 : ¬ (16 ≤ j) := by omega
+    have b3 : ¬ (24 ≤ j) := by omega
+    simp [b1, b2, b3]
+  · have a2 : ¬ (8 * 1 + j ≥ 16) := by omega
+    have a3 : ¬ (8 * 1 + j ≥ 24) := by omega
+    have e : 8 * 1 + j - 8 = j := by omega
+    have z : (m w).testBit (8 * 1 + j) = false := byte_testBit_high _ _ h0 (by omega)
+    simp [a2, a3, e, z]
+  · have a3 : ¬ (8 * 2 + j ≥ 24) := by omega
+    have e : 8 * 2 + j - 16 = j := by omega
+    have z0 : (m w).testBit (8 * 2 + j) = false := byte_testBit_high _ _ h0 (by omega)
+    have z1 : (m (w + 1)).testBit (8 * 2 + j - 8) = false := byte_testBit_high _ _ h1 (by omega)
+    simp [a3, e, z0, z1]
+  · have e : 8 * 3 + j - 24 = j := by omega
+    have z0 : (m w).testBit (8 * 3 + j) = false := byte_testBit_high _ _ h0 (by omega)
+    have z1 : (m (w + 1)).testBit (8 * 3 + j - 8) = false := byte_testBit_high _ _ h1 (by omega)
+    have z2 : (m (w + 2)).testBit (8 * 3 + j - 16) = false := byte_testBit_high _ _ h2 (by omega)
+    simp [e, z0, z1, z2]
+
+/-- two byte memories that read the same at every pixel position of the line agree on every byte from `line` on -/
+theorem bytes_eq_of_fetch (n : Nat) (hn : n = 1 ∨ n = 4 ∨ n = 8) (m1 m2 : Mem) (h1 : m1.Bytes) (h2 : m2.Bytes) (line : Nat)
+    (h : ∀ c, fetchRaw m1 line c n = fetchRaw m2 line c n) (a : Nat) (ha : line ≤ a) : m1 a = m2 a := by
+  obtain ⟨d, rfl⟩ : ∃ d, a = line + d := ⟨a - line, by omega⟩
+  rcases hn with rfl | rfl | rfl
+  · apply Nat.eq_of_testBit_eq
+    intro j
+    by_cases hj : j < 8
+    · have hc := h (8 * d + j)
+      rw [fetchRaw1, fetchRaw1, fetch1_eq, fetch1_eq] at hc
+      have e1 : (8 * d + j) / 32 = d / 4 := by omega
+      have e2 : (8 * d + j) % 32 = 8 * (d % 4) + j := by omega
+      rw [e1, e2, read32_bit m1 h1 _ _ _ (Nat.mod_lt _ (by decide)) hj,
+        read32_bit m2 h2 _ _ _ (Nat.mod_lt _ (by decide)) hj] at hc
+      have e3 : line + 4 * (d / 4) + d % 4 = line + d := by omega
+      rw [e3] at hc
+      cases hb1 : (m1 (line + d)).testBit j <;> cases hb2 : (m2 (line + d)).testBit j <;> simp_all
+    · rw [byte_testBit_high _ _ (h1 _) (by omega), byte_testBit_high _ _ (h2 _) (by omega)]
+  · have he := h (2 * d)
+    have ho := h (2 * d + 1)
+    rw [fetchRaw4, fetchRaw4] at he ho
+    unfold fetch4 fetch8 read8 at he ho
+    have o1 : ¬ ((4 * (2 * d)) &&& 4 ≠ 0) := by rw [and4]; omega
+    have o2 : (4 * (2 * d + 1)) &&& 4 ≠ 0 := by rw [and4]; omega
+    rw [if_neg o1, if_neg o1, shr3_4, and_f, and_f] at he
+    rw [if_pos o2, if_pos o2, shr3_4, Nat.shiftRight_eq_div_pow, Nat.shiftRight_eq_div_pow] at ho
+    have e1 : 2 * d / 2 = d := by omega
+    have e2 : (2 * d + 1) / 2 = d := by omega
+    rw [e1] at he
+    rw [e2] at ho
+    simp only [Nat.reducePow] at ho
+    omega
+  · have := h d
+    rw [fetchRaw8, fetchRaw8] at this
+    exact this
+
+/-- the pixels of the row and the frame determine the memory -/
+theorem holdsRow_unique (n : Nat) (hn : n = 1 ∨ n = 4 ∨ n = 8) (m0 : Mem) (line : Nat) (m1 m2 : Mem) (row : Array Nat)
+    (h1 : HoldsRow n m0 line m1 row) (h2 : HoldsRow n m0 line m2 row) : m1 = m2 := by
+  funext a
+  by_cases ha : line ≤ a
+  · apply bytes_eq_of_fetch n hn m1 m2 h1.bytes h2.bytes line _ a ha
+    intro c
+    by_cases hc : c < row.size
+    · rw [h1.inside c hc, h2.inside c hc]
+    · rw [h1.beyond c (by omega), h2.beyond c (by omega)]
+  · rw [h1.outside a (by omega), h2.outside a (by omega)]
+
+/-! ### the same row through C10's pixel stores (what C03's `realize` does cell by cell) -/
+
+/-- one cell of C03's `realize`: the new value through one C10 pixel store, nothing when the value did not change -/
+def realizeCellRow (n : Nat) (line : Nat) (old new : Array Nat) (m : Mem) (c : Nat) : Mem :=
+  if new[c]?.getD 0 = old[c]?.getD 0 then m else storeRaw m line c n (new[c]?.getD 0)
+
+/-- the row update `old → new` as C10 pixel stores of the changed cells, left to right -/
+def realizeRow (n : Nat) (line : Nat) (old new : Array Nat) (m : Mem) : Mem :=
+  (List.range new.size).foldl (realizeCellRow n line old new) m
+
+theorem bpp_of (n : Nat) (hn : n = 1 ∨ n = 4 ∨ n = 8) : Bpp n := by
+  rcases hn with h | h | h <;> subst h
+  · exact Or.inl rfl
+  · exact Or.inr (Or.inl rfl)
+  · exact Or.inr (Or.inr (Or.inl rfl))
+
+theorem unit_in (n : Nat) (hn : n = 1 ∨ n = 4 ∨ n = 8) (line c k : Nat) (hc : c < k) :
+    line ≤ unitLo line c n ∧ unitLo line c n + unitLen n ≤ line + 4 * ((k * n + 31) / 32) := by
+  rcases hn with h | h | h <;> subst h <;> simp only [unitLo, unitLen] <;>
+    simp only [Nat.reduceEqDiff, if_true, if_false] <;> omega
+
+theorem realizeRow_holds (n : Nat) (hn : n = 1 ∨ n = 4 ∨ n = 8) (m : Mem) (hb : m.Bytes) (line : Nat) (old new : Array Nat)
+    (hsz : new.size = old.size) (hold : ∀ c (h : c < old.size), fetchRaw m line c n = old[c])
+    (hv : ∀ c (h : c < new.size), new[c] < 2 ^ n) :
+    HoldsRow n m line (realizeRow n line old new m) new := by
+  have hbpp := bpp_of n hn
+  have key : ∀ k, k ≤ new.size →
+      let mk := (List.range k).foldl (realizeCellRow n line old new) m
+      mk.Bytes ∧ (∀ c (h : c < new.size), c < k → fetchRaw mk line c n = new[c]) ∧
+      (∀ c, k ≤ c → fetchRaw mk line c n = fetchRaw m line c n) ∧
+      (∀ a, a < line ∨ line + 4 * ((k * n + 31) / 32) ≤ a → mk a = m a) := by
+    intro k
+    induction k with
+    | zero => intro _; exact ⟨hb, fun c _ h => absurd h (by omega), fun _ _ => rfl, fun _ _ => rfl⟩
+    | succ k ih =>
+      intro hk
+      obtain ⟨i1, i2, i3, i4⟩ := ih (by omega)
+      simp only [List.range_succ, List.foldl_append, List.foldl_cons, List.foldl_nil]
+      generalize (List.range k).foldl (realizeCellRow n line old new) m = mk at *
+      have hk' : k < new.size := by omega
+      have hko : k < old.size := by omega
+      have gn : new[k]?.getD 0 = new[k] := by simp [hk']
+      have go : old[k]?.getD 0 = old[k] := by simp [hko]
+      unfold realizeCellRow
+      rw [gn, go]
+      by_cases heq : new[k] = old[k]
+      · rw [if_pos heq]
+        refine ⟨i1, fun c h hc => ?_, fun c hc => i3 c (by omega), fun a ha => i4 a ?_⟩
+        · by_cases hck : c < k
+          · exact i2 c h hck
+          · have : c = k := by omega
+            subst this
+            rw [i3 c (by omega), hold c hko, heq]
+        · have := unit_in n hn line k (k + 1) (by omega)
+          rcases ha with ha | ha
+          · exact Or.inl ha
+          · right
+            have hmono : (k * n + 31) / 32 ≤ ((k + 1) * n + 31) / 32 :=
+              Nat.div_le_div_right (by rw [Nat.add_mul]; omega)
+            omega
+      · rw [if_neg heq]
+        refine ⟨storeRaw_bytes _ _ _ _ _ i1, fun c h hc => ?_, fun c hc => ?_, fun a ha => ?_⟩
+        · by_cases hck : c < k
+          · rw [fetchRaw_storeRaw_other mk i1 line k c n _ hbpp (by omega)]; exact i2 c h hck
+          · have : c = k := by omega
+            subst this
+            rw [fetchRaw_storeRaw_same mk i1 line c n _ hbpp, Nat.mod_eq_of_lt (hv c h)]
+        · rw [fetchRaw_storeRaw_other mk i1 line k c n _ hbpp (by omega)]; exact i3 c (by omega)
+        · have hu := unit_in n hn line k (k + 1) (by omega)
+          have hmono : (k * n + 31) / 32 ≤ ((k + 1) * n + 31) / 32 :=
+            Nat.div_le_div_right (by rw [Nat.add_mul]; omega)
+          rw [storeRaw_frame mk line k n _ a hbpp (by omega)]
+          exact i4 a (by omega)
+  obtain ⟨k1, k2, k3, k4⟩ := key new.size (Nat.le_refl _)
+  exact ⟨k1, fun c h => k2 c h h, k3, k4⟩
+
+/-- **rowWords_eq_realize** (generic form): a memory that holds the new row and differs from `m` in nothing else IS
+    the memory C03's `realize` produces for this row (C10 pixel stores of the changed cells) -/
+theorem holdsRow_eq_realize (n : Nat) (hn : n = 1 ∨ n = 4 ∨ n = 8) (m : Mem) (hb : m.Bytes) (line : Nat) (old new : Array Nat)
+    (hsz : new.size = old.size) (hold : ∀ c (h : c < old.size), fetchRaw m line c n = old[c])
+    (m' : Mem) (h : HoldsRow n m line m' new) : m' = realizeRow n line old new m := by
+  apply holdsRow_unique n hn m line m' _ new h
+  apply realizeRow_holds n hn m hb line old new hsz hold
+  intro c hc
+  rw [← h.inside c hc]
+  rcases hn with rfl | rfl | rfl
+  · rw [fetchRaw1]; unfold fetch1; rw [Nat.and_one_is_mod]; omega
+  · rw [fetchRaw4]; unfold fetch4 fetch8 read8
+    split
+    · rw [Nat.shiftRight_eq_div_pow]; have := h.bytes (line + (4 * c) >>> 3); simp only [Nat.reducePow]; omega
+    · rw [and_f]; omega
+  · rw [fetchRaw8]; exact h.bytes _
+
+/-- a1: the word-level row update is C03's `realize` of the per-pixel result -/
+theorem row1_words_eq_realize (m : Mem) (hb : m.Bytes) (line : Nat) (row : Array Nat)
+    (hold : ∀ c (h : c < row.size), fetchRaw m line c 1 = row[c]) (W : Int) (hsz : (row.size : Int) = W)
+    (hW : 0 ≤ W ∧ W ≤ 32767) (lx rx : Int) :
+    row1W m line W lx rx = realizeRow 1 line row (row1 row W lx rx) m :=
+  holdsRow_eq_realize 1 (Or.inl rfl) m hb line row _ (row1_size ..) hold _ (row1_words m hb line row hold W hsz hW lx rx)
+
+/-- a4: the nibble-level row update is C03's `realize` of the per-pixel result -/
+theorem row4_words_eq_realize (m : Mem) (hb : m.Bytes) (line : Nat) (row : Array Nat)
+    (hold : ∀ c (h : c < row.size), fetchRaw m line c 4 = row[c]) (W : Int) (hsz : (row.size : Int) = W)
+    (hW : 0 ≤ W ∧ W ≤ 32767) (lx rx : Int) :
+    row4W m line W lx rx = realizeRow 4 line row (row4 row W lx rx) m :=
+  holdsRow_eq_realize 4 (Or.inr (Or.inl rfl)) m hb line row _ (row4_size ..) hold _
+    (row4_words m hb line row hold W hsz hW lx rx)
+
+/-- the sub-rows of one pixel row of `rasterize_edges_8` on memory -/
+def fillSpansW (line : Nat) (width : Int) (spans : List (Int × Int)) (st : Mem × Fill) : Mem × Fill :=
+  spans.foldl (fun st sp => row8FillW st.1 line width sp.1 sp.2 st.2) st
+
+theorem fillSpansW_sim (m0 : Mem) (line : Nat) (W : Int) (hW : 0 ≤ W ∧ W ≤ 32767) (spans : List (Int × Int)) :
+    ∀ (m : Mem) (row : Array Nat) (fs : Fill), R8 m0 line m row → (row.size : Int) = W → FillIn W fs →
+      R8 m0 line (fillSpansW line W spans (m, fs)).1 (fillSpans W spans (row, fs)).1 ∧
+      (fillSpansW line W spans (m, fs)).2 = (fillSpans W spans (row, fs)).2 ∧
+      FillIn W (fillSpans W spans (row, fs)).2 ∧ ((fillSpans W spans (row, fs)).1.size : Int) = W := by
+  induction spans with
+  | nil => intro m row fs h hsz hin; exact ⟨h, rfl, hin, hsz⟩
+  | cons sp rest ih =>
+    intro m row fs h hsz hin
+    simp only [fillSpansW, fillSpans, List.foldl_cons] at ih ⊢
+    obtain ⟨s1, s2, s3⟩ := row8Fill_words m0 m line row h W hsz hW sp.1 sp.2 fs hin
+    have hsz' : ((row8Fill row W sp.1 sp.2 fs).1.size : Int) = W := by rw [row8Fill_size]; exact hsz
+    have e : row8FillW m line W sp.1 sp.2 fs = ((row8FillW m line W sp.1 sp.2 fs).1, (row8Fill row W sp.1 sp.2 fs).2) :=
+      Prod.ext rfl s2
+    rw [e]
+    exact ih _ _ _ s1 hsz' s3
+
+theorem naiveSpans_size (W : Int) (spans : List (Int × Int)) : ∀ row : Array Nat, (naiveSpans W spans row).size = row.size := by
+  induction spans with
+  | nil => intro row; rfl
+  | cons sp rest ih =>
+    intro row
+    simp only [naiveSpans, List.foldl_cons] at ih ⊢
+    rw [ih, row8_size]
+
+/-- a8, one whole pixel row: the sub-row spans with the span-fill bookkeeping and the final flush, on bytes, are
+    C03's `realize` of the naive per-sub-row accumulation `row8` (through `spanfill_eq_naive`) -/
+theorem row8_words_eq_realize (m : Mem) (hb : m.Bytes) (line : Nat) (row : Array Nat)
+    (hold : ∀ c (h : c < row.size), fetchRaw m line c 8 = row[c]) (W : Int) (hsz : (row.size : Int) = W)
+    (hW : 0 ≤ W ∧ W ≤ 32767) (spans : List (Int × Int)) :
+    flushFillW (fillSpansW line W spans (m, {})).1 line (fillSpansW line W spans (m, {})).2 =
+      realizeRow 8 line row (naiveSpans W spans row) m := by
+  obtain ⟨s1, s2, s3, s4⟩ := fillSpansW_sim m line W hW spans m row {} (r8_of_holds m hb line row hold) hsz (fillIn_init W)
+  have f0 := flushFill_words m (fillSpansW line W spans (m, {})).1 line _ s1 W s4 (fillSpans W spans (row, {})).2 s3
+  have f : R8 m line (flushFillW (fillSpansW line W spans (m, {})).1 line (fillSpansW line W spans (m, {})).2)
+      (naiveSpans W spans row) := by
+    rw [s2, ← fillSpans_flush]; exact f0
+  have hn : (naiveSpans W spans row).size = row.size := naiveSpans_size W spans row
+  exact holdsRow_eq_realize 8 (Or.inr (Or.inr rfl)) m hb line row _ hn hold _ (holdsRow_of_R8 f)
+
 end Pixman.Lemmas.TrapWords
